@@ -248,4 +248,409 @@ theorem search_no_err (cfg : Cfg) (layout : Layout) (g : ∀ f ∈ layout, ∀ i
     simp only [Option.map_some, Option.getD_some]
     exact scanFile_good_no_err cfg ignore keep h f (g f (List.mem_of_getElem? hl)) fl
 
+/-! #### "not found" is only answered when the marker is absent (loop invariant) -/
+
+/-- the items of file `idx` of a layout (none for an index outside it) -/
+def fileItems (layout : Layout) (idx : Nat) : List Item := (layout[idx]?).getD []
+
+theorem layoutGroup_file (layout : Layout) (idx : Nat) :
+    (layoutGroup layout).file idx = encodeAll (fileItems layout idx) := by
+  simp only [Group.file, layoutGroup, fileItems, List.getD_eq_getElem?_getD, List.getElem?_map]
+  cases layout[idx]? <;> rfl
+
+theorem fileItems_good {cfg : Cfg} {layout : Layout} (g : ∀ f ∈ layout, ∀ i ∈ f, GoodItem cfg i) (idx : Nat) :
+    ∀ i ∈ fileItems layout idx, GoodItem cfg i := by
+  unfold fileItems
+  cases hl : layout[idx]? with
+  | none => intro i hi; simp at hi
+  | some f => exact g f (List.mem_of_getElem? hl)
+
+/-- markers of different files are ordered like the files -/
+theorem markers_cross (layout : Layout) (hinc : (markersOf layout.flatten).Pairwise (· < ·))
+    (i1 i2 : Nat) (hlt : i1 < i2) (x y : Int)
+    (hx : x ∈ markersOf (fileItems layout i1)) (hy : y ∈ markersOf (fileItems layout i2)) : x < y := by
+  unfold fileItems at hx hy
+  cases h2 : layout[i2]? with
+  | none => rw [h2] at hy; simp [markersOf] at hy
+  | some f2 =>
+    cases h1 : layout[i1]? with
+    | none => rw [h1] at hx; simp [markersOf] at hx
+    | some f1 =>
+      rw [h1] at hx; rw [h2] at hy
+      simp only [Option.getD_some] at hx hy
+      have hi2 : i2 < layout.length := (List.getElem?_eq_some_iff.mp h2).1
+      have hsplit : layout = layout.take i2 ++ f2 :: layout.drop (i2 + 1) := by
+        have e2 : layout[i2] = f2 := (List.getElem?_eq_some_iff.mp h2).2
+        rw [← e2]
+        exact (List.take_append_drop i2 layout).symm.trans (by rw [List.drop_eq_getElem_cons hi2])
+      have hf1 : f1 ∈ layout.take i2 := by
+        have : (layout.take i2)[i1]? = some f1 := by
+          rw [List.getElem?_take_of_lt hlt]; exact h1
+        exact List.mem_of_getElem? this
+      rw [hsplit, List.flatten_append, markersOf_append, List.pairwise_append] at hinc
+      apply hinc.2.2 x (mem_markersOf_flatten hf1 hx) y
+      rw [List.flatten_cons, markersOf_append]
+      exact List.mem_append_left _ hy
+
+/-- markers inside one file are increasing -/
+theorem markers_within (layout : Layout) (hinc : (markersOf layout.flatten).Pairwise (· < ·)) (idx : Nat) :
+    (markersOf (fileItems layout idx)).Pairwise (· < ·) := by
+  unfold fileItems
+  cases h2 : layout[idx]? with
+  | none => simp [markersOf]
+  | some f2 =>
+    have hi2 : idx < layout.length := (List.getElem?_eq_some_iff.mp h2).1
+    have hsplit : layout = layout.take idx ++ f2 :: layout.drop (idx + 1) := by
+      have e2 : layout[idx] = f2 := (List.getElem?_eq_some_iff.mp h2).2
+      rw [← e2]
+      exact (List.take_append_drop idx layout).symm.trans (by rw [List.drop_eq_getElem_cons hi2])
+    rw [hsplit, List.flatten_append, markersOf_append, List.pairwise_append] at hinc
+    have := hinc.2.1
+    rw [List.flatten_cons, markersOf_append, List.pairwise_append] at this
+    simpa using this.1
+
+/-- What each outcome of FILE_LOOP says about a file of well-formed lines with increasing
+markers (the fuel covers every line). -/
+theorem scanFile_sem (cfg : Cfg) (ignore keep : Bool) (h : Int) (items : List Item)
+    (g : ∀ i ∈ items, GoodItem cfg i) (hs : (markersOf items).Pairwise (· < ·)) :
+    ∀ (fuel : Nat), items.length < fuel →
+      match scanFile cfg ignore keep h fuel (encodeAll items) with
+      | .eof => if keep then ∀ m ∈ markersOf items, m < h else markersOf items = []
+      | .earlier => h ∉ markersOf items ∧ ∃ m ∈ markersOf items, h < m
+      | .later => keep = false ∧ ∃ m rest, markersOf items = m :: rest ∧ m < h
+      | .found _ => True
+      | .errCorrupt => False
+      | .errMeta => False := by
+  induction items with
+  | nil =>
+    intro fuel _
+    rw [show encodeAll [] = [] from rfl, scanFile_nil]
+    cases keep <;> simp [markersOf]
+  | cons i is ih =>
+    intro fuel hf
+    have gi := g i List.mem_cons_self
+    have ih' := ih (fun x hx => g x (List.mem_cons_of_mem _ hx))
+    cases fuel with
+    | zero => simp at hf
+    | succ fuel =>
+      have hf' : is.length < fuel := by simpa using hf
+      rw [encodeAll_cons, scanFile, nextLine_line _ _ (nl_not_mem_lineText i)]
+      simp only [readLine_lineText cfg i gi]
+      cases i with
+      | msg p =>
+        simp only [itemRes, markersOf]
+        exact ih' (by simpa [markersOf] using hs) fuel hf'
+      | mark m =>
+        simp only [itemRes]
+        have hs' : (markersOf is).Pairwise (· < ·) := by
+          simp only [markersOf, List.pairwise_cons] at hs; exact hs.2
+        have hgt : ∀ x ∈ markersOf is, m < x := by
+          simp only [markersOf, List.pairwise_cons] at hs; exact hs.1
+        by_cases h1 : h < m
+        · simp only [h1, if_true, markersOf, List.mem_cons, not_or]
+          refine ⟨⟨by omega, ?_⟩, m, Or.inl rfl, h1⟩
+          intro hm; have := hgt h hm; omega
+        · by_cases h2 : m = h
+          · have : (m == h) = true := by simpa using h2
+            simp [h1, this]
+          · have h2' : (m == h) = false := by simpa using h2
+            simp only [h1, if_false, h2', Bool.false_eq_true]
+            cases keep with
+            | false =>
+              simp only [Bool.false_eq_true, if_false, markersOf]
+              exact ⟨trivial, m, _, rfl, by omega⟩
+            | true =>
+              simp only [if_true]
+              have := ih' hs' fuel hf'
+              revert this
+              cases scanFile cfg ignore true h fuel (encodeAll is) with
+              | eof =>
+                simp only [if_true, markersOf, List.mem_cons]
+                intro hall x hx
+                rcases hx with rfl | hx
+                · omega
+                · exact hall x hx
+              | earlier =>
+                simp only [markersOf, List.mem_cons, not_or]
+                rintro ⟨hn, x, hx, hlt⟩
+                exact ⟨⟨fun e => h2 e.symm, hn⟩, x, Or.inr hx, hlt⟩
+              | later => simp
+              | found r => simp
+              | errCorrupt => simp
+              | errMeta => simp
+
+theorem length_le_encodeAll (items : List Item) : items.length ≤ (encodeAll items).length := by
+  induction items with
+  | nil => simp
+  | cons i is ih =>
+    rw [encodeAll_cons]
+    simp only [List.length_cons, List.length_append]
+    omega
+
+/-- marker `h` occurs in file `idx` -/
+def Present (layout : Layout) (h : Int) (idx : Nat) : Prop := h ∈ markersOf (fileItems layout idx)
+
+/-- first index of the current probing round -/
+def roundBase (s : SState) : Int :=
+  match s.mode with
+  | .backwards => s.maxVal + s.backoff
+  | .binary => (s.minVal + s.maxVal + 1).tdiv 2
+
+/-- loop invariant of `SearchForHeight`: the marker, if present, lies in [minVal, maxVal]
+and not in a file already probed in this round -/
+structure Inv (layout : Layout) (h : Int) (s : SState) : Prop where
+  min0 : 0 ≤ s.minVal
+  off0 : 0 ≤ s.idxoff
+  bo : s.backoff ≤ 0
+  inRange : ∀ idx : Nat, Present layout h idx → s.minVal ≤ (idx : Int) ∧ (idx : Int) ≤ s.maxVal
+  skipped : ∀ idx : Nat, Present layout h idx → ¬ (roundBase s ≤ (idx : Int) ∧ (idx : Int) < roundBase s + s.idxoff)
+
+/-- the facts one probe of file `index` yields about where the marker can be -/
+theorem probe_facts (cfg : Cfg) (layout : Layout) (g : ∀ f ∈ layout, ∀ i ∈ f, GoodItem cfg i)
+    (hinc : (markersOf layout.flatten).Pairwise (· < ·)) (ignore keep : Bool) (h : Int) (index : Int)
+    (h0 : 0 ≤ index) :
+    match scanFile cfg ignore keep h (((layoutGroup layout).file index.toNat).length + 1)
+        ((layoutGroup layout).file index.toNat) with
+    | .eof => ∀ idx : Nat, Present layout h idx → (idx : Int) ≠ index
+    | .earlier => ∀ idx : Nat, Present layout h idx → (idx : Int) < index
+    | .later => keep = false ∧ ∀ idx : Nat, Present layout h idx → index ≤ (idx : Int)
+    | .found _ => True
+    | .errCorrupt => False
+    | .errMeta => False := by
+  have hidx : (index.toNat : Int) = index := Int.toNat_of_nonneg h0
+  have sem := scanFile_sem cfg ignore keep h (fileItems layout index.toNat) (fileItems_good g _)
+    (markers_within layout hinc _) (((layoutGroup layout).file index.toNat).length + 1)
+    (by rw [layoutGroup_file]; have := length_le_encodeAll (fileItems layout index.toNat); omega)
+  rw [← layoutGroup_file] at sem
+  revert sem
+  cases scanFile cfg ignore keep h (((layoutGroup layout).file index.toNat).length + 1)
+      ((layoutGroup layout).file index.toNat) with
+  | eof =>
+    intro sem idx hp e
+    have e' : idx = index.toNat := by omega
+    subst e'
+    unfold Present at hp
+    cases keep with
+    | true => simp only [if_true] at sem; have := sem h hp; omega
+    | false => simp only [Bool.false_eq_true, if_false] at sem; rw [sem] at hp; cases hp
+  | earlier =>
+    rintro ⟨hn, m, hm, hlt⟩ idx hp
+    unfold Present at hp
+    by_cases hlt2 : idx < index.toNat
+    · omega
+    · exfalso
+      by_cases heq : idx = index.toNat
+      · subst heq; exact hn hp
+      · have := markers_cross layout hinc index.toNat idx (by omega) m h hm hp
+        omega
+  | later =>
+    rintro ⟨hk, m, rest, hm, hlt⟩
+    refine ⟨hk, ?_⟩
+    intro idx hp
+    unfold Present at hp
+    by_cases hge : index.toNat ≤ idx
+    · omega
+    · exfalso
+      have hmm : m ∈ markersOf (fileItems layout index.toNat) := by rw [hm]; exact List.mem_cons_self
+      have := markers_cross layout hinc idx index.toNat (by omega) h m hp hmm
+      omega
+  | found r => intro _; trivial
+  | errCorrupt => intro sem; exact sem
+  | errMeta => intro sem; exact sem
+
+theorem searchLoop_notFound (cfg : Cfg) (layout : Layout) (g : ∀ f ∈ layout, ∀ i ∈ f, GoodItem cfg i)
+    (hinc : (markersOf layout.flatten).Pairwise (· < ·)) (ignore : Bool) (h : Int) :
+    ∀ (fuel : Nat) (s : SState), Inv layout h s →
+      searchLoop cfg (layoutGroup layout) ignore h fuel s = .notFound → ∀ idx, ¬ Present layout h idx := by
+  intro fuel
+  induction fuel with
+  | zero => intro s _ hf; simp [searchLoop] at hf
+  | succ fuel ih =>
+    intro s inv hf
+    unfold searchLoop at hf
+    dsimp only at hf
+    split at hf
+    · -- loop exit: minVal > maxVal
+      rename_i hexit
+      intro idx hp
+      have := inv.inRange idx hp
+      omega
+    · rename_i hle
+      have hle' : s.minVal ≤ s.maxVal := by omega
+      have hmin := inv.min0; have hoff := inv.off0; have hbo := inv.bo
+      split at hf
+      · -- backwards
+        rename_i hmode
+        have hbase : roundBase s = s.maxVal + s.backoff := by simp [roundBase, hmode]
+        split at hf
+        · -- the round ran past maxVal
+          rename_i hover
+          refine ih _ ?_ hf
+          refine ⟨hmin, by simp, ?_, ?_, ?_⟩
+          · dsimp only; split <;> omega
+          · intro idx hp
+            have h1 := inv.inRange idx hp
+            have h2 := inv.skipped idx hp
+            rw [hbase] at h2
+            dsimp only; omega
+          · intro idx hp; dsimp only; omega
+        · rename_i hnover
+          split at hf
+          · cases hf
+          · rename_i hnpanic
+            have h0 : 0 ≤ s.maxVal + s.backoff + s.idxoff := by omega
+            have pf := probe_facts cfg layout g hinc ignore (s.backoff == 0) h _ h0
+            split at hf
+            · -- eof
+              rename_i hsf
+              rw [hsf] at pf
+              refine ih _ ?_ hf
+              refine ⟨hmin, by dsimp only; omega, hbo, inv.inRange, ?_⟩
+              intro idx hp
+              have h2 := inv.skipped idx hp
+              have h3 := pf idx hp
+              rw [hbase] at h2
+              have : roundBase { s with idxoff := s.idxoff + 1 } = s.maxVal + s.backoff := by
+                simp [roundBase, hmode]
+              rw [this]; dsimp only; omega
+            · cases hf
+            · cases hf
+            · cases hf
+            · -- earlier
+              rename_i hsf
+              rw [hsf] at pf
+              have key : ∀ idx : Nat, Present layout h idx → (idx : Int) < s.maxVal + s.backoff := by
+                intro idx hp
+                have h2 := inv.skipped idx hp
+                have h3 := pf idx hp
+                rw [hbase] at h2
+                omega
+              by_cases hb0 : s.backoff = 0
+              · have hb0' : (s.backoff == 0) = true := by simpa using hb0
+                simp only [hb0', if_true] at hf
+                split at hf
+                · refine ih _ ?_ hf
+                  refine ⟨hmin, by simp, by simp, ?_, ?_⟩
+                  · intro idx hp; have := key idx hp; have := inv.inRange idx hp; dsimp only; omega
+                  · intro idx hp; dsimp only; omega
+                · refine ih _ ?_ hf
+                  refine ⟨hmin, by simp, by simp, ?_, ?_⟩
+                  · intro idx hp; have := key idx hp; have := inv.inRange idx hp; dsimp only; omega
+                  · intro idx hp; dsimp only; omega
+              · have hb0' : (s.backoff == 0) = false := by simpa using hb0
+                simp only [hb0', Bool.false_eq_true, if_false] at hf
+                split at hf
+                · refine ih _ ?_ hf
+                  refine ⟨hmin, by simp, by simp, ?_, ?_⟩
+                  · intro idx hp; have := key idx hp; have := inv.inRange idx hp; dsimp only; omega
+                  · intro idx hp; dsimp only; omega
+                · refine ih _ ?_ hf
+                  refine ⟨hmin, by simp, by dsimp only; omega, ?_, ?_⟩
+                  · intro idx hp; have := key idx hp; have := inv.inRange idx hp; dsimp only; omega
+                  · intro idx hp; dsimp only; omega
+            · -- later
+              rename_i hsf
+              rw [hsf] at pf
+              refine ih _ ?_ hf
+              refine ⟨by dsimp only; omega, by simp, by simp, ?_, ?_⟩
+              · intro idx hp
+                have := pf.2 idx hp; have := inv.inRange idx hp; dsimp only; omega
+              · intro idx hp; dsimp only; omega
+      · -- binary
+        rename_i hmode
+        have hmid : (s.minVal + s.maxVal + 1).tdiv 2 = (s.minVal + s.maxVal + 1) / 2 :=
+          Int.tdiv_eq_ediv_of_nonneg (by omega)
+        have hbase : roundBase s = (s.minVal + s.maxVal + 1) / 2 := by simp [roundBase, hmode, hmid]
+        rw [hmid] at hf
+        split at hf
+        · rename_i hover
+          refine ih _ ?_ hf
+          refine ⟨hmin, by simp, hbo, ?_, ?_⟩
+          · intro idx hp
+            have h1 := inv.inRange idx hp
+            have h2 := inv.skipped idx hp
+            rw [hbase] at h2
+            dsimp only; omega
+          · intro idx hp; dsimp only; omega
+        · rename_i hnover
+          have h0 : 0 ≤ (s.minVal + s.maxVal + 1) / 2 + s.idxoff := by omega
+          have pf := probe_facts cfg layout g hinc ignore
+            (decide ¬ ((s.minVal + s.maxVal + 1) / 2 + s.idxoff < s.maxVal)) h _ h0
+          split at hf
+          · -- eof
+            rename_i hsf
+            rw [hsf] at pf
+            refine ih _ ?_ hf
+            refine ⟨hmin, by dsimp only; omega, hbo, inv.inRange, ?_⟩
+            intro idx hp
+            have h2 := inv.skipped idx hp
+            have h3 := pf idx hp
+            rw [hbase] at h2
+            have : roundBase { s with idxoff := s.idxoff + 1 } = (s.minVal + s.maxVal + 1) / 2 := by
+              simp [roundBase, hmode, hmid]
+            rw [this]; dsimp only; omega
+          · cases hf
+          · cases hf
+          · cases hf
+          · -- earlier
+            rename_i hsf
+            rw [hsf] at pf
+            refine ih _ ?_ hf
+            refine ⟨hmin, by simp, hbo, ?_, ?_⟩
+            · intro idx hp
+              have h1 := inv.inRange idx hp
+              have h2 := inv.skipped idx hp
+              have h3 := pf idx hp
+              rw [hbase] at h2
+              dsimp only; omega
+            · intro idx hp; dsimp only; omega
+          · -- later
+            rename_i hsf
+            rw [hsf] at pf
+            refine ih _ ?_ hf
+            refine ⟨by dsimp only; omega, by simp, hbo, ?_, ?_⟩
+            · intro idx hp
+              have := pf.2 idx hp; have := inv.inRange idx hp; dsimp only; omega
+            · intro idx hp; dsimp only; omega
+
+theorem present_of_afterMarker {layout : Layout} {h : Int} {f : List Item} {rest : Bytes}
+    (hf : f ∈ layout) (ha : afterMarker h f = some rest) : ∃ idx, Present layout h idx := by
+  obtain ⟨idx, hidx, rfl⟩ := List.getElem_of_mem hf
+  refine ⟨idx, ?_⟩
+  unfold Present fileItems
+  rw [List.getElem?_eq_getElem hidx]
+  exact mem_markersOf_of_afterMarker ha
+
+theorem initial_inv (layout : Layout) (h : Int) (mode : Mode) :
+    Inv layout h { minVal := ((layoutGroup layout).minIndex : Int), maxVal := ((layoutGroup layout).maxIndex : Int),
+                   mode := mode, backoff := 0, idxoff := 0 } := by
+  refine ⟨by simp [layoutGroup], by simp, by simp, ?_, ?_⟩
+  · intro idx hp
+    have hlt : idx < layout.length := by
+      unfold Present fileItems at hp
+      cases hl : layout[idx]? with
+      | none => rw [hl] at hp; simp [markersOf] at hp
+      | some f => exact (List.getElem?_eq_some_iff.mp hl).1
+    simp only [layoutGroup, Group.maxIndex, List.length_map]
+    omega
+  · intro idx hp; dsimp only; omega
+
+/-- "not found" is only ever answered when the marker is in no file of the layout. -/
+theorem search_notFound_sound (cfg : Cfg) (layout : Layout) (g : ∀ f ∈ layout, ∀ i ∈ f, GoodItem cfg i)
+    (hinc : (markersOf layout.flatten).Pairwise (· < ·)) (mode : Nat) (ignore : Bool) (h : Int)
+    (hs : search cfg (layoutGroup layout) mode ignore h = .notFound) :
+    expectedSearch h layout = .notFound := by
+  have hno := searchLoop_notFound cfg layout g hinc ignore h _ _ (initial_inv layout h _) hs
+  unfold expectedSearch
+  have : layout.findSome? (afterMarker h) = none := by
+    apply List.findSome?_eq_none_iff.mpr
+    intro f hf
+    cases ha : afterMarker h f with
+    | none => rfl
+    | some rest =>
+      obtain ⟨idx, hp⟩ := present_of_afterMarker hf ha
+      exact absurd hp (hno idx)
+  rw [this]
+
+
 end GnoVerif.C38
